@@ -55,6 +55,15 @@ func c10Batches(shape string) [][]map[string]any {
 			out = append(out, []map[string]any{{"id": fmt.Sprintf("s%d", i), "p": part}})
 		}
 		return out
+	case "hot-cold", "cold-hot":
+		// one batch spanning a partition that reaches its row-group limit and partitions that do
+		// not; the hot partition sorts first ("hot-cold") or last ("cold-hot") — the controlled
+		// build walks maps in key order
+		hot, cold := "a-hot", "z-cold"
+		if shape == "cold-hot" {
+			hot, cold = "z-hot", "a-cold"
+		}
+		return [][]map[string]any{{{"id": "h0", "p": hot}, {"id": "h1", "p": hot}, {"id": "c0", "p": cold}, {"id": "c1", "p": cold + "2"}}}
 	case "mixed":
 		return [][]map[string]any{{{"id": "a", "p": "x"}}, {}, {{"id": "bad", "f": func() {}}}, {{"id": "b", "p": "y"}}}
 	}
@@ -184,7 +193,7 @@ func c10Root(p c10p) func() {
 func init() {
 	Registry["C10"] = func(tier string) []Scenario {
 		var ps []c10p
-		shapes := []string{"single", "two-same", "two-parts", "many-parts", "oversized", "mixed", "seq3", "seq4", "seq5", "seq4-alt"}
+		shapes := []string{"single", "two-same", "two-parts", "many-parts", "oversized", "mixed", "seq3", "seq4", "seq5", "seq4-alt", "hot-cold", "cold-hot"}
 		limits := [][4]int{{0, 0, 0, 0}, {2, 0, 0, 0}, {0, 60, 0, 0}, {0, 0, 2, 0}, {0, 0, 0, 60}, {3, 0, 2, 0}, {2, 400, 3, 300}}
 		times := []time.Duration{10 * time.Millisecond, 100 * time.Millisecond, 250 * time.Millisecond}
 		gaps := []time.Duration{0, 50 * time.Millisecond}
